@@ -76,6 +76,9 @@ enum Shape {
     /// large bursts (one UPDATE per prefix) while the remote end does not read: the
     /// daemon's flush fills the socket and has to wait; changes keep arriving meanwhile
     Stall,
+    /// one long history next to the others, hold time 3 s: silences long enough for the
+    /// daemon's KEEPALIVE timer to fire between and into bursts of changes
+    Idle,
 }
 
 #[derive(Clone, Debug)]
@@ -98,6 +101,8 @@ struct Cfg {
     prepopulate: usize,
     hold: u16,
     stall_n: usize,
+    /// the remote end sends a KEEPALIVE of its own before every barrier
+    chatty: bool,
 }
 
 fn gen_cfg(rng: &mut Rng, thorough: bool) -> Cfg {
@@ -128,6 +133,7 @@ fn gen_cfg(rng: &mut Rng, thorough: bool) -> Cfg {
         },
         hold: *rng.pick(&[90u16, 90, 30, 0]),
         stall_n: rng.range(250, if thorough { 3000 } else { 900 }) as usize,
+        chatty: rng.chance(1, 3),
         obs,
     }
 }
@@ -234,6 +240,11 @@ fn remote_caps(cfg: &Cfg) -> Vec<packet::Capability> {
 enum Fail {
     /// nothing (of what is awaited) arrived within the watchdog; the connection was open
     Stuck {
+        stage: &'static str,
+        detail: String,
+    },
+    /// a change never arrived although the session task delivers later changes
+    Lost {
         stage: &'static str,
         detail: String,
     },
@@ -935,28 +946,61 @@ impl Env {
     }
 
     async fn barrier_inner(&self, r: &mut Remote, first: bool) -> Result<(), Fail> {
+        if self.cfg.chatty && !first {
+            r.send(&[bgp::Message::Keepalive], "mid-history").await?;
+        }
         if r.wire_dirty {
             self.wire_barrier(r).await?;
         }
         let a = r.s_reach;
         self.rib.sentinel_up();
-        let res = r
-            .pump(
-                |r| r.s_reach > a,
-                if first {
-                    "initial-dump"
-                } else {
-                    "change-delivery"
-                },
-            )
-            .await;
-        if res.is_err() {
+        let stage = if first {
+            "first-announcement"
+        } else {
+            "announcement-delivery"
+        };
+        let res = r.pump(|r| r.s_reach > a, stage).await;
+        if let Err(e) = res {
             self.rib.sentinel_down();
-            return res;
+            if matches!(e, Fail::Stuck { .. }) {
+                // Does the session deliver at all?  Announce the sentinel once more.
+                let wd = r.wd;
+                r.wd = std::time::Duration::from_secs(5);
+                self.rib.sentinel_up();
+                let again = r.pump(|r| r.s_reach > a, stage).await;
+                self.rib.sentinel_down();
+                r.wd = wd;
+                if again.is_ok() {
+                    return Err(Fail::Lost {
+                        stage,
+                        detail: "the announcement of the sentinel prefix never arrived; a second announcement of it, made after the watchdog fired, did".into(),
+                    });
+                }
+            }
+            return Err(e);
         }
         let b = r.s_unreach;
         self.rib.sentinel_down();
-        r.pump(|r| r.s_unreach > b, "withdrawal-delivery").await
+        let res = r.pump(|r| r.s_unreach > b, "withdrawal-delivery").await;
+        if let Err(Fail::Stuck { .. }) = &res {
+            let wd = r.wd;
+            r.wd = std::time::Duration::from_secs(5);
+            let a2 = r.s_reach;
+            self.rib.sentinel_up();
+            let mut again = r.pump(|r| r.s_reach > a2, "withdrawal-delivery").await;
+            self.rib.sentinel_down();
+            if again.is_ok() {
+                again = r.pump(|r| r.s_unreach > b, "withdrawal-delivery").await;
+            }
+            r.wd = wd;
+            if again.is_ok() {
+                return Err(Fail::Lost {
+                    stage: "withdrawal-delivery",
+                    detail: "the withdrawal of the sentinel prefix never arrived; after a second announcement + withdrawal of it, made after the watchdog fired, it did".into(),
+                });
+            }
+        }
+        res
     }
 
     /// everything the remote end has written so far has been consumed by the daemon
@@ -1081,6 +1125,9 @@ struct Outcome {
     stall_bytes: u64,
     max_epoch_routes: u64,
     eager: bool,
+    keepalives_mid_session: u64,
+    hold_timer_expiries: u64,
+    idle_rounds: u64,
     us_open: u64,
     us_barrier: u64,
     us_close: u64,
@@ -1705,6 +1752,7 @@ async fn run_history(
     let res = match cfg.shape {
         Shape::Mixed => run_mixed(&mut run, ops).await,
         Shape::Stall => run_stall(&mut run, seed).await,
+        Shape::Idle => Err(Fail::Harness("the idle shape has its own driver".into())),
     };
     if mixed_conc {
         let (hits, _) = crate::verif_hooks::uninstall();
@@ -1719,8 +1767,161 @@ async fn run_history(
             out.fail = Some(f);
         }
     }
-    // stop whatever the daemon side still runs for this neighbour
+    if matches!(out.fail, Some(Fail::Closed { .. })) {
+        // a connection that went away because the session task panicked
+        if let Some((loc, msg)) = LAST_PANIC.lock().unwrap().take() {
+            if loc.starts_with("daemon/") || loc.starts_with("table/") || loc.starts_with("packet/") {
+                out.fail = Some(Fail::Panic { loc, msg });
+            }
+        }
+    }
     out
+}
+
+
+/// one round of the keepalive history; gives the session back (possibly a new one)
+async fn idle_round(run: &mut Run<'_>, mut r: Remote, rng: &mut Rng) -> Result<Remote, Fail> {
+    let env = run.env;
+    // ---- silence: only KEEPALIVEs travel, ours every 100-300 ms (hold time 3 s)
+    let ka0 = r.st.keepalives;
+    let quiet_ms = rng.range(700, 1400);
+    let t0 = std::time::Instant::now();
+    while (t0.elapsed().as_millis() as u64) < quiet_ms {
+        let ms = rng.range(100, 300);
+        tokio::time::sleep(std::time::Duration::from_millis(ms)).await;
+        r.send(&[bgp::Message::Keepalive], "mid-history").await?;
+        r.sip()?;
+        if r.notif.is_some() {
+            return Err(Fail::Closed {
+                stage: "mid-history",
+                notif: r.notif,
+            });
+        }
+    }
+    // ---- a few operations across the moment the KEEPALIVE timer fires
+    let nops = rng.range(3, 14) as usize;
+    let ops = base::gen_ops(rng, &env.cfg.obs, nops);
+    for o in &ops {
+        match o {
+            Op::Deliver { .. } | Op::Flush | Op::Check => {
+                let ms = rng.range(1, 40);
+                tokio::time::sleep(std::time::Duration::from_millis(ms)).await;
+                r.sip()?;
+            }
+            o if is_wire_op(o) => run.wire_op(&mut r, o).await?,
+            o => {
+                if env.rib.apply(o) {
+                    run.note(o);
+                }
+            }
+        }
+    }
+    env.barrier(&mut r, false).await?;
+    run.out.barriers += 1;
+    run.out.keepalives_mid_session += r.st.keepalives - ka0;
+    if rng.chance(2, 3) {
+        r = run.check(r).await?;
+    }
+    Ok(r)
+}
+
+/// The keepalive history: hold time 3 s (KEEPALIVE every second), rounds of
+/// [silence until the daemon's KEEPALIVE is due, a few operations, quiescent point,
+/// judged restart].  Runs next to the other histories of the shard, on its own RIB.
+async fn run_idle(cfg: Cfg, seed: u64, stop: Arc<AtomicBool>, max_rounds: u64, wd_s: u64) -> Outcome {
+    let addr = IpAddr::V4(Ipv4Addr::LOCALHOST);
+    let listener = match crate::verif_hooks::bind_retry("127.0.0.1:0".parse().unwrap()).await {
+        Ok(l) => l,
+        Err(e) => {
+            return Outcome {
+                fail: Some(Fail::Harness(format!("bind: {}", e))),
+                ..Default::default()
+            };
+        }
+    };
+    let env = match Env::new(&cfg, addr, std::time::Duration::from_secs(wd_s)) {
+        Ok(e) => e,
+        Err(f) => {
+            return Outcome {
+                fail: Some(f),
+                ..Default::default()
+            };
+        }
+    };
+    let mut run = Run {
+        env: &env,
+        listener: &listener,
+        out: Outcome::default(),
+        epoch: Vec::new(),
+        epoch_has_refresh: false,
+    };
+    let mut rng = Rng::new(seed ^ 0x1d1e);
+    let res: Result<(), Fail> = async {
+        let mut cur: Option<Remote> = None;
+        while !stop.load(Ordering::Relaxed) && run.out.idle_rounds < max_rounds {
+            let r = match cur.take() {
+                Some(r) => r,
+                None => {
+                    let mut r = env.open_session(&listener).await?;
+                    run.out.sessions += 1;
+                    env.barrier(&mut r, true).await?;
+                    run.out.barriers += 1;
+                    run.epoch.clear();
+                    run.epoch_has_refresh = false;
+                    r
+                }
+            };
+            run.out.idle_rounds += 1;
+            match idle_round(&mut run, r, &mut rng).await {
+                Ok(r) => cur = Some(r),
+                Err(Fail::Closed {
+                    notif: Some((4, _)),
+                    ..
+                }) if run.out.mismatch.is_none() && run.out.hold_timer_expiries < 5 => {
+                    // hold time 3 s on a loaded box: our KEEPALIVEs came too late.  That
+                    // session is gone and nothing about it is judged; go on with a new one.
+                    run.out.hold_timer_expiries += 1;
+                }
+                Err(e) => return Err(e),
+            }
+        }
+        if let Some(r) = cur {
+            let st = env.close(r).await?;
+            run.out.wire.add(&st);
+        }
+        Ok(())
+    }
+    .await;
+    let mut out = run.out;
+    out.us_open = env.us[0].load(Ordering::Relaxed);
+    out.us_barrier = env.us[1].load(Ordering::Relaxed);
+    out.us_close = env.us[2].load(Ordering::Relaxed);
+    if let Err(f) = res {
+        if out.mismatch.is_none() {
+            out.fail = Some(f);
+        }
+    }
+    if matches!(out.fail, Some(Fail::Closed { .. })) {
+        // a connection that went away because the session task panicked
+        if let Some((loc, msg)) = LAST_PANIC.lock().unwrap().take() {
+            if loc.starts_with("daemon/") || loc.starts_with("table/") || loc.starts_with("packet/") {
+                out.fail = Some(Fail::Panic { loc, msg });
+            }
+        }
+    }
+    out
+}
+
+fn idle_cfg(rng: &mut Rng) -> Cfg {
+    let mut cfg = gen_cfg(rng, false);
+    cfg.shape = Shape::Idle;
+    cfg.obs.v6 = false;
+    cfg.obs.concurrent = false;
+    cfg.obs.late_join = false;
+    cfg.hold = 3;
+    cfg.small_buffers = false;
+    cfg.prepopulate = 0;
+    cfg
 }
 
 // ------------------------------------------------------------------ driver
@@ -1749,11 +1950,195 @@ fn ops_json(ops: &[Op]) -> Json {
 
 fn stage_of(f: &Fail) -> String {
     match f {
-        Fail::Stuck { stage, .. } => format!("stuck:{}", stage),
+        Fail::Stuck { stage, .. } | Fail::Lost { stage, .. } => format!("no-progress:{}", stage),
         Fail::Closed { stage, notif } => format!("closed:{}:{:?}", stage, notif),
         Fail::Panic { loc, .. } => format!("panic:{}", loc),
         Fail::Decode(_) => "decode".into(),
         Fail::Harness(_) => "harness".into(),
+    }
+}
+
+fn count_outcome(rep: &mut Report, cfg: &Cfg, out: &Outcome) {
+    rep.eval();
+    rep.count("e2e:histories");
+    rep.count_n("e2e:epochs-judged", out.epochs);
+    rep.count_n("e2e:barriers", out.barriers);
+    rep.count_n("e2e:sessions", out.sessions);
+    rep.count_n("e2e:update-frames-read", out.wire.updates);
+    rep.count_n("e2e:frames-read", out.wire.frames);
+    rep.count_n("e2e:bytes-read", out.wire.bytes);
+    rep.count_n("e2e:routes-compared", out.routes_compared);
+    rep.count_n("e2e:withdrawals-on-the-wire", out.wire.withdrawals);
+    rep.count_n("e2e:replacements-on-the-wire", out.wire.replacements);
+    rep.count_n(
+        "e2e:readvertisements-on-the-wire",
+        out.wire.readvertisements,
+    );
+    rep.count_n("e2e:keepalives-read", out.wire.keepalives);
+    rep.count_n("e2e:end-of-rib-read", out.wire.eors);
+    rep.count_n("e2e:route-refresh-round-trips", out.rr_round_trips);
+    rep.count_n("e2e:updates-sent-by-the-neighbour", out.wire_announces);
+    rep.count_n("e2e:frames-with-attribute-errors", out.wire.attr_errors);
+    rep.count_n(
+        "unjudged:e2e:withdrawal-of-a-route-the-view-did-not-hold",
+        out.wire.withdraw_of_unknown,
+    );
+    rep.max("e2e:routes-in-one-comparison", out.max_epoch_routes);
+    rep.count_n("cost:e2e:ms-in-session-setup", out.us_open / 1000);
+    rep.count_n("cost:e2e:ms-in-barriers", out.us_barrier / 1000);
+    rep.count_n("cost:e2e:ms-in-session-end", out.us_close / 1000);
+    for (k, v) in &out.applied {
+        rep.count_n(&format!("e2e:op:{}", k), *v);
+    }
+    rep.count(&format!("e2e:role:{:?}", cfg.obs.role));
+    rep.count(&format!("e2e:branch:{}", branch(cfg)));
+    rep.count(&format!("e2e:shards:{}", cfg.obs.shards));
+    rep.count(if cfg.eager_open {
+        "e2e:handshake:open+keepalive-at-once"
+    } else {
+        "e2e:handshake:keepalive-after-the-daemons-open"
+    });
+    if cfg.obs.v6 {
+        rep.count("e2e:ipv6-sessions");
+    }
+    if cfg.chatty {
+        rep.count("e2e:histories-with-keepalives-from-the-neighbour");
+    }
+    if cfg.per_peer_policy {
+        rep.count("e2e:histories-with-per-neighbour-export-policy");
+    }
+    if cfg.shape == Shape::Stall {
+        rep.count("e2e:histories-stall");
+        rep.count_n("e2e:stall-rounds-with-blocked-flush", out.stall_blocked);
+        rep.count_n("e2e:stall-bytes", out.stall_bytes);
+    }
+    if cfg.shape == Shape::Idle {
+        rep.count("e2e:histories-keepalive");
+        rep.count_n("e2e:keepalive-rounds", out.idle_rounds);
+        rep.count_n(
+            "e2e:keepalives-from-the-daemon-mid-session",
+            out.keepalives_mid_session,
+        );
+        rep.count_n(
+            "unjudged:e2e:hold-timer-expired-under-load",
+            out.hold_timer_expiries,
+        );
+    }
+    if cfg.obs.concurrent {
+        rep.count("e2e:histories-concurrent");
+        rep.count_n("e2e:concurrent-bursts", out.bursts);
+        rep.count_n("e2e:sched-point-hits", out.sched_hits);
+        rep.count_n("e2e:late-joins", out.late_joins);
+        rep.count_n(
+            "e2e:late-joins-overlapping-a-burst",
+            out.late_joins_overlapped,
+        );
+    }
+}
+
+/// What to do with a run that ended without a judgement.  `rerun` executes the same
+/// history once more, alone, with a longer watchdog.  Returns true when a no-progress /
+/// silent-close violation was recorded.
+fn report_fail<R: FnMut() -> Outcome>(
+    rep: &mut Report,
+    params: &Params,
+    cfg: &Cfg,
+    ops: &[Op],
+    hist_idx: u64,
+    f: &Fail,
+    mut rerun: R,
+) -> bool {
+    match f {
+        Fail::Panic { loc, msg } => {
+            rep.violation(
+                &format!("C01/panic/{}:{}", loc, panic_class(msg)),
+                &format!("the session task panicked: {}", msg),
+                Json::obj(vec![
+                    ("config", Json::s(format!("{:?}", cfg))),
+                    ("ops", ops_json(ops)),
+                    ("shard_seed", Json::Int(params.seed as i128)),
+                    ("history_index", Json::Int(hist_idx as i128)),
+                ]),
+            );
+            false
+        }
+        Fail::Decode(e) => {
+            rep.inconclusive(&format!("harness error: Decode({})", e));
+            false
+        }
+        Fail::Harness(e) => {
+            rep.inconclusive(&format!("harness error: {}", e));
+            false
+        }
+        Fail::Closed {
+            notif: Some((4, _)),
+            ..
+        } if cfg.hold > 0 && cfg.hold <= 3 => {
+            // hold time 3 s and a loaded box: the remote end's KEEPALIVEs came too late.
+            // Nothing was judged and nothing is claimed; floors see to it that enough
+            // keepalive rounds are observed.
+            rep.count("unjudged:e2e:hold-timer-expired-under-load");
+            false
+        }
+        Fail::Closed {
+            notif: Some((code, sub)),
+            stage,
+        } => {
+            // the daemon said why: a hold timer or a complaint about what the scripted
+            // remote end sent -- neither is this property's business
+            rep.inconclusive(&format!(
+                "the daemon ended the session with NOTIFICATION {}/{} at {}",
+                code, sub, stage
+            ));
+            false
+        }
+        Fail::Stuck { .. } | Fail::Lost { .. } | Fail::Closed { notif: None, .. } => {
+            // No progress / silent close.  A violation only if it is not the box: the
+            // same history, alone, with a longer watchdog, must do it again.
+            let first = stage_of(f);
+            rep.count("e2e:reruns-after-no-progress");
+            let again = rerun();
+            let second = again.fail.as_ref().map(stage_of);
+            if second.as_deref() == Some(first.as_str()) {
+                let (sig, what, detail) = match f {
+                    Fail::Stuck { stage, detail } => (
+                        format!("C01/e2e/no-progress/{}", stage),
+                        format!("the connection is open and the session task runs, but `{}` never completes: what the RIB holds for the neighbour is not put on the wire (reproduced when the history was re-run alone with a longer watchdog)", stage),
+                        detail.clone(),
+                    ),
+                    Fail::Lost { stage, detail } => (
+                        format!("C01/e2e/lost-update/{}", stage),
+                        format!("a change of the RIB (`{}` of the sentinel prefix) was never put on the wire for the neighbour although the session delivers later changes (reproduced when the history was re-run alone with a longer watchdog)", stage),
+                        detail.clone(),
+                    ),
+                    Fail::Closed { stage, .. } => (
+                        format!("C01/e2e/session-closed-by-daemon/{}", stage),
+                        format!("the daemon closed the neighbour's connection without a NOTIFICATION although the remote end only sent valid messages and kept the connection open (at `{}`; reproduced when the history was re-run alone)", stage),
+                        String::new(),
+                    ),
+                    _ => unreachable!(),
+                };
+                rep.violation(
+                    &sig,
+                    &what,
+                    Json::obj(vec![
+                        ("config", Json::s(format!("{:?}", cfg))),
+                        ("ops", ops_json(ops)),
+                        ("detail", Json::s(detail)),
+                        ("shard_seed", Json::Int(params.seed as i128)),
+                        ("history_index", Json::Int(hist_idx as i128)),
+                        ("rerun", Json::s(format!("{:?}", again.fail))),
+                    ]),
+                );
+                true
+            } else {
+                rep.inconclusive(&format!(
+                    "watchdog / connection loss that did not reproduce when the history was re-run alone: first {}, then {:?}",
+                    first, second
+                ));
+                false
+            }
+        }
     }
 }
 
@@ -1789,6 +2174,23 @@ fn run() {
     }
     let n = params.n(3000, 200000);
     let only = params.get("only").and_then(|s| s.parse::<u64>().ok());
+    // ---- the keepalive history runs next to the others for the whole budget
+    let idle_stop = Arc::new(AtomicBool::new(false));
+    let mut idle_rng = Rng::new(params.seed ^ 0x1d1e_c01e);
+    let icfg = idle_cfg(&mut idle_rng);
+    let iseed = idle_rng.next_u64();
+    let idle_task = if only.is_none() && !params.flag("noidle") {
+        Some(rt.spawn(run_idle(
+            icfg.clone(),
+            iseed,
+            idle_stop.clone(),
+            u64::MAX,
+            WATCHDOG_S,
+        )))
+    } else {
+        None
+    };
+    let mut no_progress = 0;
     for hist_idx in 0..n {
         if !rep.in_budget() {
             break;
@@ -1806,151 +2208,28 @@ fn run() {
             eprintln!("== history {} config {:?}", hist_idx, cfg);
         }
         let out = rt.block_on(run_history(&cfg, &ops, hseed, &l4, l6.as_ref(), WATCHDOG_S));
-        rep.eval();
-        rep.count("e2e:histories");
-        rep.count_n("e2e:epochs-judged", out.epochs);
-        rep.count_n("e2e:barriers", out.barriers);
-        rep.count_n("e2e:sessions", out.sessions);
-        rep.count_n("e2e:update-frames-read", out.wire.updates);
-        rep.count_n("e2e:frames-read", out.wire.frames);
-        rep.count_n("e2e:bytes-read", out.wire.bytes);
-        rep.count_n("e2e:routes-compared", out.routes_compared);
-        rep.count_n("e2e:withdrawals-on-the-wire", out.wire.withdrawals);
-        rep.count_n("e2e:replacements-on-the-wire", out.wire.replacements);
-        rep.count_n(
-            "e2e:readvertisements-on-the-wire",
-            out.wire.readvertisements,
-        );
-        rep.count_n("e2e:keepalives-read", out.wire.keepalives);
-        rep.count_n("e2e:end-of-rib-read", out.wire.eors);
-        rep.count_n("e2e:route-refresh-round-trips", out.rr_round_trips);
-        rep.count_n("e2e:updates-sent-by-the-neighbour", out.wire_announces);
-        rep.count_n("e2e:frames-with-attribute-errors", out.wire.attr_errors);
-        rep.count_n(
-            "unjudged:e2e:withdrawal-of-a-route-the-view-did-not-hold",
-            out.wire.withdraw_of_unknown,
-        );
-        rep.max("e2e:routes-in-one-comparison", out.max_epoch_routes);
-        rep.count_n("cost:e2e:ms-in-session-setup", out.us_open / 1000);
-        rep.count_n("cost:e2e:ms-in-barriers", out.us_barrier / 1000);
-        rep.count_n("cost:e2e:ms-in-session-end", out.us_close / 1000);
-        for (k, v) in &out.applied {
-            rep.count_n(&format!("e2e:op:{}", k), *v);
-        }
-        rep.count(&format!("e2e:role:{:?}", cfg.obs.role));
-        rep.count(&format!("e2e:branch:{}", branch(&cfg)));
-        rep.count(&format!("e2e:shards:{}", cfg.obs.shards));
-        rep.count(if cfg.eager_open {
-            "e2e:handshake:open+keepalive-at-once"
-        } else {
-            "e2e:handshake:keepalive-after-the-daemons-open"
-        });
-        if cfg.obs.v6 {
-            rep.count("e2e:ipv6-sessions");
-        }
-        if cfg.shape == Shape::Stall {
-            rep.count("e2e:histories-stall");
-            rep.count_n("e2e:stall-rounds-with-blocked-flush", out.stall_blocked);
-            rep.count_n("e2e:stall-bytes", out.stall_bytes);
-        }
-        if cfg.obs.concurrent {
-            rep.count("e2e:histories-concurrent");
-            rep.count_n("e2e:concurrent-bursts", out.bursts);
-            rep.count_n("e2e:sched-point-hits", out.sched_hits);
-            rep.count_n("e2e:late-joins", out.late_joins);
-            rep.count_n(
-                "e2e:late-joins-overlapping-a-burst",
-                out.late_joins_overlapped,
-            );
-        }
+        count_outcome(&mut rep, &cfg, &out);
         if out.wire.withdrawals > 0 && out.wire.replacements > 0 {
             rep.nontrivial(fnv64(format!("e2e{:?}{:?}", cfg, ops).as_bytes()));
             rep.count("e2e:histories-nontrivial");
         }
-        // ---------------------------------------------------------------- harness-level outcomes
+        // ---------------------------------------------------------------- no judgement
         if let Some(f) = &out.fail {
-            match f {
-                Fail::Panic { loc, msg } => {
-                    rep.violation(
-                        &format!("C01/panic/{}:{}", loc, panic_class(msg)),
-                        &format!("the session task panicked: {}", msg),
-                        Json::obj(vec![
-                            ("config", Json::s(format!("{:?}", cfg))),
-                            ("ops", ops_json(&ops)),
-                            ("shard_seed", Json::Int(params.seed as i128)),
-                            ("history_index", Json::Int(hist_idx as i128)),
-                        ]),
-                    );
-                }
-                Fail::Decode(e) => rep.inconclusive(&format!("harness error: Decode({})", e)),
-                Fail::Harness(e) => rep.inconclusive(&format!("harness error: {}", e)),
-                Fail::Closed {
-                    notif: Some((code, sub)),
-                    stage,
-                } => {
-                    // the daemon said why: hold timer (load) or a complaint about what the
-                    // scripted remote end sent -- neither is this property's business
-                    rep.inconclusive(&format!(
-                        "the daemon ended the session with NOTIFICATION {}/{} at {}",
-                        code, sub, stage
-                    ));
-                }
-                Fail::Stuck { .. } | Fail::Closed { notif: None, .. } => {
-                    // No progress / silent close.  A violation only if it is not the box:
-                    // the same history, alone, with a longer watchdog, must do it again.
-                    let first = stage_of(f);
-                    rep.count("e2e:reruns-after-no-progress");
-                    let again = rt.block_on(run_history(
-                        &cfg,
-                        &ops,
-                        hseed,
-                        &l4,
-                        l6.as_ref(),
-                        RERUN_WATCHDOG_S,
-                    ));
-                    let second = again.fail.as_ref().map(stage_of);
-                    if second.as_deref() == Some(first.as_str()) {
-                        let (sig, what, detail) = match f {
-                            Fail::Stuck { stage, detail } => (
-                                format!("C01/e2e/no-progress/{}", stage),
-                                format!(
-                                    "the session is up and the connection open, but {} never completes: what the RIB-side operations caused is not put on the wire (reproduced when the history was re-run alone)",
-                                    stage
-                                ),
-                                detail.clone(),
-                            ),
-                            Fail::Closed { stage, .. } => (
-                                format!("C01/e2e/session-closed-by-daemon/{}", stage),
-                                format!(
-                                    "the daemon closed the neighbour's connection without a NOTIFICATION although the remote end only sent valid messages and kept the connection open (at {}; reproduced when the history was re-run alone)",
-                                    stage
-                                ),
-                                String::new(),
-                            ),
-                            _ => unreachable!(),
-                        };
-                        rep.violation(
-                            &sig,
-                            &what,
-                            Json::obj(vec![
-                                ("config", Json::s(format!("{:?}", cfg))),
-                                ("ops", ops_json(&ops)),
-                                ("detail", Json::s(detail)),
-                                ("shard_seed", Json::Int(params.seed as i128)),
-                                ("history_index", Json::Int(hist_idx as i128)),
-                                ("rerun", Json::s(format!("{:?}", again.fail))),
-                            ]),
-                        );
-                        // every further history would spend two watchdogs the same way
-                        if matches!(f, Fail::Stuck { .. }) {
-                            break;
-                        }
-                    } else {
-                        rep.inconclusive(&format!(
-                            "watchdog / connection loss that did not reproduce when the history was re-run alone: first {}, then {:?}",
-                            first, second
-                        ));
-                    }
+            let stuck = report_fail(&mut rep, &params, &cfg, &ops, hist_idx, f, || {
+                rt.block_on(run_history(
+                    &cfg,
+                    &ops,
+                    hseed,
+                    &l4,
+                    l6.as_ref(),
+                    RERUN_WATCHDOG_S,
+                ))
+            });
+            if stuck {
+                no_progress += 1;
+                // further histories would spend their watchdogs the same way
+                if no_progress >= 3 || matches!(f, Fail::Stuck { .. }) {
+                    break;
                 }
             }
             continue;
@@ -2011,16 +2290,16 @@ fn run() {
             "VERIF_SEED={} VERIF_TIER={} VERIF_ONLY={} VERIF_TRACE=1 <e2 test binary> event::verif::c01e::run --exact --nocapture",
             params.seed, params.tier, hist_idx
         );
-        if again_seq >= 3 && cfg.shape == Shape::Mixed {
-            // stable enough to shrink: drop operations while the same kind of difference remains
+        if again_seq >= 2 && cfg.shape == Shape::Mixed {
+            // stable enough to shrink: drop operations while the same kind of difference
+            // remains (a candidate gets several runs: the session task's schedule varies)
             let mut cur: Vec<Op> = ops.clone();
             let started = std::time::Instant::now();
-            let mut budget = 300;
+            let mut budget = 400;
             let fails = |cand: &[Op], budget: &mut i32| -> Option<Mismatch> {
-                for _ in 0..2 {
+                for _ in 0..4 {
                     *budget -= 1;
-                    let o =
-                        rt.block_on(run_history(&seq, cand, hseed, &l4, l6.as_ref(), WATCHDOG_S));
+                    let o = rt.block_on(run_history(&seq, cand, hseed, &l4, l6.as_ref(), WATCHDOG_S));
                     if o.fail.is_some() {
                         return None;
                     }
@@ -2034,22 +2313,21 @@ fn run() {
             };
             loop {
                 let before = cur.len();
-                let mut i = 0;
-                while i < cur.len() && budget > 0 && started.elapsed().as_secs() < 25 {
+                // from the end: what follows the culprit goes first
+                let mut i = cur.len();
+                while i > 0 && budget > 0 && started.elapsed().as_secs() < 30 {
+                    i -= 1;
                     let mut cand = cur.clone();
                     cand.remove(i);
                     if !cand.iter().any(|o| matches!(o, Op::Check)) {
-                        i += 1;
                         continue;
                     }
                     if let Some(g) = fails(&cand, &mut budget) {
                         cur = cand;
                         last = Some(g);
-                    } else {
-                        i += 1;
                     }
                 }
-                if cur.len() == before || budget <= 0 || started.elapsed().as_secs() >= 25 {
+                if cur.len() == before || budget <= 0 || started.elapsed().as_secs() >= 30 {
                     break;
                 }
             }
@@ -2077,7 +2355,10 @@ fn run() {
                     ("wire", Json::strs(fin.wire_logs.clone())),
                     ("failing_epoch_ops", Json::strs(fin.epoch_ops.clone())),
                     ("original_len", Json::Int(ops.len() as i128)),
-                    ("reproduced", Json::s(format!("{}/{} sequential re-runs", again_seq, tries))),
+                    (
+                        "reproduced",
+                        Json::s(format!("{}/{} sequential re-runs", again_seq, tries)),
+                    ),
                     ("shard_seed", Json::Int(params.seed as i128)),
                     ("history_index", Json::Int(hist_idx as i128)),
                     ("replay", Json::s(replay)),
@@ -2139,6 +2420,58 @@ fn run() {
                     ("note", Json::s("schedule-dependent: replay is best-effort")),
                 ]),
             );
+        }
+    }
+    // ---------------------------------------------------------------- the keepalive history
+    idle_stop.store(true, Ordering::Relaxed);
+    if let Some(t) = idle_task {
+        match rt.block_on(async {
+            tokio::time::timeout(std::time::Duration::from_secs(3 * WATCHDOG_S), t).await
+        }) {
+            Ok(Ok(out)) => {
+                count_outcome(&mut rep, &icfg, &out);
+                if let Some(f) = &out.fail {
+                    let rounds = out.idle_rounds.max(2);
+                    report_fail(&mut rep, &params, &icfg, &[], u64::MAX, f, || {
+                        rt.block_on(run_idle(
+                            icfg.clone(),
+                            iseed,
+                            Arc::new(AtomicBool::new(false)),
+                            rounds,
+                            RERUN_WATCHDOG_S,
+                        ))
+                    });
+                } else if let Some(m) = out.mismatch {
+                    rep.count("e2e:mismatches");
+                    let sig = if m.known_pattern {
+                        KNOWN_SIG.to_string()
+                    } else {
+                        format!(
+                            "C01/e2e/{}/{}/keepalive-interleaved",
+                            m.kind,
+                            branch(&icfg)
+                        )
+                    };
+                    rep.violation(
+                        &sig,
+                        &format!(
+                            "after quiescence the neighbour's Adj-RIB-In differs from what a brand-new session is sent ({}), in the history whose silences let the KEEPALIVE timer fire",
+                            m.kind
+                        ),
+                        Json::obj(vec![
+                            ("config", Json::s(format!("{:?}", icfg))),
+                            ("failing_epoch_ops", Json::strs(m.epoch_ops.clone())),
+                            ("differences", Json::strs(m.detail.clone())),
+                            ("wire", Json::strs(m.wire_logs.clone())),
+                            ("shard_seed", Json::Int(params.seed as i128)),
+                            ("idle_seed", Json::Int(iseed as i128)),
+                            ("note", Json::s("schedule-dependent: replay is best-effort")),
+                        ]),
+                    );
+                }
+            }
+            Ok(Err(_)) => rep.inconclusive("the keepalive history's task ended abnormally"),
+            Err(_) => rep.inconclusive("watchdog: the keepalive history did not stop"),
         }
     }
     let _ = rep.finish();
